@@ -289,6 +289,12 @@ func (p *c17) Run(c fw.Case, r *fw.Rec) {
 				}
 			}
 		}
+		if err != nil && strings.Contains(text, "\n") && (strings.Contains(text, "//") || strings.Contains(text, "#")) {
+			// a slice holding a line comment and a line break: where semicolons are inserted after the comment depends on
+			// the nesting the node was parsed at, so the slice is not context-free; the re-parse rule does not apply
+			r.Cover("reparse-skipped:line-comment-inside-slice")
+			return true
+		}
 		if err != nil {
 			if c17Exempt["R5:"+k] {
 				return true
